@@ -48,6 +48,9 @@ MODELLED RATHER THAN VERIFIED (what the statements below do not cover):
 * termination of the underlying `run_a_star` and of `backtrack` is C01's subject; here only the
   loops of the two k-shortest-paths algorithms are shown to end.
 -/
+import Compass.Gen.Decisions
+import Compass.Proofs.Num
+import Compass.Model.Ksp
 import Compass.Proofs.Ksp
 
 namespace Compass
@@ -1577,6 +1580,35 @@ theorem yens_candidate_tests_witness :
     Example.obsOf (yens (Example.alt3 [.turnRestriction [(0, 3)]]) simAcceptAll .exact 0 3 2
       [[0, 1, 2, 3], [1, 4, 3]]) = .routes [[0, 1, 2]] :=
   ⟨Example.yen_no_loop, Example.yen_dissimilar, Example.yen_restricted_turn⟩
+
+end C13
+end Compass
+
+namespace Compass
+namespace C13
+open Src
+
+/-! ### Source decision ties
+
+The relational operators at the named comparison sites of the Rust source are re-extracted on every run
+by `tools/gen_model.py` into `Compass/Gen/Decisions.lean` (`Src.<site> : Src.Rel`).  Each theorem below
+says that the hand-written model decides at that site by exactly the operator the source has there
+(`Rel.nat` / `Rel.int` / `Rel.num` interpret the extracted operator; an unrecognised line is `none`).  A
+source change that turns `<` into `<=`, `>` into `>=`, … at a site changes the generated constant and this
+proof obligation stops checking, whether or not a generated case lands on the tie. -/
+
+theorem src_ksp_exact (k n : Nat) : some (KspTerm.exact.terminate k n) = ksp_exact.nat n k := by
+  simp [KspTerm.terminate, ksp_exact, Rel.nat]
+
+theorem src_ksp_max_iteration (max k n : Nat) :
+    some ((KspTerm.maxIteration max).terminate k n) =
+      (ksp_exact.nat n k).bind fun a => (ksp_max_iteration.nat max k).map fun b => a && b := by
+  simp [KspTerm.terminate, ksp_exact, ksp_max_iteration, Rel.nat]
+
+theorem src_ksp_factor (f k n : Nat) :
+    some ((KspTerm.factor f).terminate k n) =
+      (ksp_exact.nat n k).bind fun a => (ksp_factor.nat (f * n) k).map fun b => a && b := by
+  simp [KspTerm.terminate, ksp_exact, ksp_factor, Rel.nat]
 
 end C13
 end Compass
